@@ -510,12 +510,17 @@ pub fn driver_main(prop: &PropDef, tier: Tier) -> i32 {
     for w in 0..nworkers {
         let scalar = prop.env_groups && w % 2 == 1;
         let mut cmd = Command::new(exe());
+        // with env groups, workers 2p (SIMD) and 2p+1 (scalar) execute the same run indices (same tapes)
+        let (first, stride) = if prop.env_groups && nworkers >= 2 { (w / 2, nworkers / 2) } else { (w, nworkers) };
+        if prop.env_groups && nworkers >= 2 && w / 2 >= nworkers / 2 {
+            continue;
+        }
         cmd.arg("worker")
             .arg(prop.id)
             .arg(tier.name())
             .arg(seed.to_string())
-            .arg(w.to_string())
-            .arg(nworkers.to_string())
+            .arg(first.to_string())
+            .arg(stride.to_string())
             .arg(count.to_string())
             .arg(((w as usize) % ncpu).to_string())
             .arg(if w < 2 { "3" } else { "0" })
